@@ -130,3 +130,15 @@ func init() {
 func init() { prop("C06", "C07-R1") }
 
 func init() { prop("C13", "C13-R7") }
+
+func init() {
+	prop("C04", "C04-R8")
+	prop("C20", "C20-R4")
+	prop("C02", "C20-R4")
+}
+
+func init() {
+	prop("C13", "C13-R8")
+	prop("C09", "C13-R8")
+	prop("C01", "C13-R8")
+}
